@@ -19,6 +19,8 @@ inductive Kind where
 structure Field where
   name : String
   ty : TyId
+  /-- declared in another package than the one being generated: invisible there unless exported -/
+  foreign : Bool := false
   deriving Repr, DecidableEq, Inhabited
 
 /-- a method signature as far as convergen inspects it -/
@@ -31,6 +33,8 @@ structure MethodInfo where
   /-- `LookupFieldOrMethod(typ, false, …)` does not find it while `(typ, true, …)` does: the operand
   must be addressable (entries of the `lookup` oracle) -/
   needsAddr : Bool := false
+  /-- declared in another package than the one being generated -/
+  foreign : Bool := false
   deriving Repr, DecidableEq, Inhabited
 
 /-- result of `types.LookupFieldOrMethod` -/
@@ -140,6 +144,17 @@ def distinctFieldsCheck : Bool :=
 def methodsOf (t : TyId) : List MethodInfo :=
   let d := env.derefPtr t
   if env.isNamedType d then (env.ty d).methods else []
+
+/-- `types.LookupFieldOrMethod(t, true, <generated package>, name) != nil` for a direct member of a
+struct type: the field or (explicit) method of that name exists and is exported or declared in the
+generated package -/
+def visibleMember (t : TyId) (name : String) : Bool :=
+  match (env.fieldsOf t).find? (·.name == name) with
+  | some f => isExportedName name || !f.foreign
+  | none =>
+    match (env.methodsOf t).find? (·.name == name) with
+    | some m => isExportedName name || !m.foreign
+    | none => false
 
 /-- `util.CompliesGetter` -/
 def compliesGetter (m : MethodInfo) : Bool :=
